@@ -48,6 +48,10 @@ Definition is_fallback (v : variant) : bool := is_default v || is_catch_all v.
 (* Range<u32>::count() of the field address *)
 Definition field_width (f : field) : Z := if f_start f <? f_end f then f_end f - f_start f else 0.
 
+(* val.max(8).next_power_of_two(): the bit count of the integer type that carries a field of w bits (used by
+   lir_transform::transform_enum for the repr and, since e1d126c, by enum_values_checked itself) *)
+Definition carrier_bits (w : Z) : Z := 2 ^ Z.log2_up (Z.max w 8).
+
 (* ------------------------------------------------------------------ *)
 (* enum_values_checked: FIRST numbering ("last seen + 1")               *)
 (* ------------------------------------------------------------------ *)
@@ -115,8 +119,11 @@ Definition count {A} (f : A -> bool) (l : list A) : nat := List.length (filter f
 
 Inductive verdict := VOk | VErr (e : gen_error) | VPanic.
 
-(* one enum on a field of width w, in object obj, field fld; checks in the order of the code *)
-Definition enum_check_with (dup_eqb : Z * variant -> Z * variant -> bool)
+(* one enum on a field of width w, in object obj, field fld; checks in the order of the code.
+   [mid] stands for the checks the repairs of D16 / D17 put between the "too high" test and the "more than one
+   default" test (they look at seen_values only); the historical pass has none. *)
+Definition enum_check_gen (dup_eqb : Z * variant -> Z * variant -> bool)
+           (mid : list (Z * variant) -> option gen_error)
            (obj fld : string) (w : Z) (e : enum_def) (use_try : bool) : verdict :=
   let vs := e_variants e in
   if 127 <=? w then VPanic                                            (* (1 << w) - 1 in i128, debug profile *)
@@ -130,17 +137,51 @@ Definition enum_check_with (dup_eqb : Z * variant -> Z * variant -> bool)
     | Some (n, v) =>
       VErr (mk_err "enum_value_too_high" [show_vid v; e_name e; obj; fld; show_Z n; show_Z (highest w)])
     | None =>
+      match mid seen with
+      | Some err => VErr err
+      | None =>
       if negb (count is_default vs <? 2)%nat then VErr (mk_err "enum_multi_default" [e_name e; obj; fld])
       else if negb (count is_catch_all vs <? 2)%nat then VErr (mk_err "enum_multi_catch_all" [e_name e; obj; fld])
       else match enum_style w vs with
            | GFallible => if use_try then VOk else VErr (mk_err "enum_not_covered" [e_name e; obj; fld])
            | GInfallible _ => VOk
            end
+      end
     end
   end.
 
-Definition enum_check := enum_check_with seen_eqb.            (* the code as it is *)
-Definition enum_check_fixed := enum_check_with seen_eqb_fixed. (* with the D12 repair candidate *)
+(* HISTORICAL models (kept: the older theorems and the C07 development speak about them) *)
+Definition enum_check_with (dup_eqb : Z * variant -> Z * variant -> bool) := enum_check_gen dup_eqb (fun _ => None).
+Definition enum_check := enum_check_with seen_eqb.            (* the code before 3c1cc51 *)
+Definition enum_check_fixed := enum_check_with seen_eqb_fixed. (* with the D12 repair (3c1cc51), before 717250d / e1d126c *)
+
+(* ---- the pass as it is now: D12 repair + D16 repair (717250d) + D17 repair (e1d126c) ---- *)
+
+(* i128::MIN >> (128 - repr_bits), i128::MAX >> (128 - repr_bits)  with repr_bits = carrier_bits w *)
+Definition repr_min (w : Z) : Z := - 2 ^ (carrier_bits w - 1).
+Definition repr_max (w : Z) : Z := 2 ^ (carrier_bits w - 1) - 1.
+
+(* (a) `field.base_type != BaseType::Int`: the first seen value below 0 is reported;
+   (b) `field.base_type == BaseType::Int`: the first seen value outside repr_min..=repr_max is reported.
+   The messages' trailing "(min = ..)" / "(min = .., max = ..)" are functions of base and width and are not part
+   of the canonical error (tools/errmap.py drops them too). *)
+Definition repr_mid (base : base_type) (obj fld : string) (w : Z) (e : enum_def)
+           (seen : list (Z * variant)) : option gen_error :=
+  match base with
+  | BInt =>
+    match find (fun p => (fst p <? repr_min w) || (repr_max w <? fst p)) seen with
+    | Some (n, v) => Some (mk_err "enum_value_repr" [show_vid v; e_name e; obj; fld; show_Z n])
+    | None => None
+    end
+  | _ =>
+    match find (fun p => fst p <? 0) seen with
+    | Some (n, v) => Some (mk_err "enum_value_too_low" [show_vid v; e_name e; obj; fld; show_Z n])
+    | None => None
+    end
+  end.
+
+Definition enum_check_repaired (base : base_type) (obj fld : string) (w : Z) (e : enum_def) (use_try : bool) : verdict :=
+  enum_check_gen seen_eqb_fixed (repr_mid base obj fld w e) obj fld w e use_try.
 
 (* ---- lifted to a device: pre-order over objects, all field sets, first non-ok verdict ---- *)
 
@@ -178,6 +219,12 @@ Definition enum_values_check_with dup_eqb (d : device) : verdict :=
 Definition enum_values_check := enum_values_check_with seen_eqb.
 Definition enum_values_check_fixed := enum_values_check_with seen_eqb_fixed.
 
+(* the pass as it is now (the base type is the field's) *)
+Definition check_site_repaired (s : site) : verdict :=
+  enum_check_repaired (f_base (s_field s)) (s_obj s) (f_name (s_field s)) (s_width s) (s_enum s) (s_try s).
+Definition enum_values_check_repaired (d : device) : verdict :=
+  first_verdict (map check_site_repaired (enum_sites d)).
+
 Definition show_verdict (v : verdict) : string :=
   match v with VOk => "ok" | VErr e => "error:" ++ show_error e | VPanic => "panic" end.
 
@@ -201,9 +248,6 @@ Fixpoint emit_from (next : option Z) (vs : list variant) : list evariant :=
   end.
 
 Definition emit_variants (vs : list variant) : list evariant := emit_from None vs.
-
-(* val.max(8).next_power_of_two() *)
-Definition carrier_bits (w : Z) : Z := 2 ^ Z.log2_up (Z.max w 8).
 
 Record eenum := { ee_name : string; ee_signed : bool; ee_bits : Z; ee_variants : list evariant }.
 
@@ -283,7 +327,8 @@ Definition find_enum (enums : list (enum_def * base_type * Z)) (name : string) :
   | None => None
   end.
 
-Definition conv_choice (enums : list (enum_def * base_type * Z)) (f : field) : conv_method :=
+(* HISTORICAL (before 6916a8d, defect D18): the FIRST generated enum of that name decided *)
+Definition conv_choice_first_hit (enums : list (enum_def * base_type * Z)) (f : field) : conv_method :=
   match f_conv f with
   | None => match f_base f with BBool => CMBool | _ => CMNone end
   | Some c =>
@@ -295,6 +340,31 @@ Definition conv_choice (enums : list (enum_def * base_type * Z)) (f : field) : c
                      | _ => CMInto name
                      end
          | None => CMInto name
+         end
+  end.
+
+(* The rule as it is now (6916a8d, repair of D18).  Generated enums can share a name when they are behind
+   different cfgs: enum_list.clone().filter(|e| e.name == fc.type_name()) — ALL of them, in collect order;
+   `try` wins first; UnsafeInto iff there is at least one (`peek().is_some()`) and EVERY one is
+   Infallible{bit_size} with field width <= bit_size; otherwise Into. *)
+Definition named_enums (enums : list (enum_def * base_type * Z)) (name : string) : list enum_def :=
+  map (fun t => fst (fst t)) (filter (fun t => String.eqb (e_name (fst (fst t))) name) enums).
+
+Definition infallible_for (w : Z) (e : enum_def) : bool :=
+  match e_style e with
+  | Some (GInfallible bits) => w <=? bits
+  | _ => false
+  end.
+
+Definition conv_choice (enums : list (enum_def * base_type * Z)) (f : field) : conv_method :=
+  match f_conv f with
+  | None => match f_base f with BBool => CMBool | _ => CMNone end
+  | Some c =>
+    let name := conv_type_name c in
+    if conv_use_try c then CMTryInto name
+    else match named_enums enums name with
+         | [] => CMInto name
+         | l => if forallb (infallible_for (field_width f)) l then CMUnsafeInto name else CMInto name
          end
   end.
 
@@ -323,12 +393,11 @@ Inductive getter_value :=
 Definition UB_unwrap_unchecked : failkind := OOB.
 Definition NoFromImpl : failkind := AssertFail.
 
-(* enums = collect_enums d, emitted = emitted_enums d (passed in so that tables over all bit patterns compute
-   them once) *)
-Definition getter_with (enums : list (enum_def * base_type * Z)) (emitted : list eenum)
-           (f : field) (p : Z) : outcome getter_value :=
+(* the getter for a given conversion method; emitted = the enum items present (passed in so that tables over all
+   bit patterns compute them once) *)
+Definition getter_of_method (m : conv_method) (emitted : list eenum) (f : field) (p : Z) : outcome getter_value :=
   let raw := raw_of_pattern (f_base f) (field_width f) p in
-  match conv_choice enums f with
+  match m with
   | CMNone | CMBool => Ok (GPlain raw)
   | CMTryInto n =>
     match resolve emitted n with
@@ -351,6 +420,11 @@ Definition getter_with (enums : list (enum_def * base_type * Z)) (emitted : list
     end
   end.
 
+(* enums = collect_enums d, emitted = emitted_enums d *)
+Definition getter_with (enums : list (enum_def * base_type * Z)) (emitted : list eenum)
+           (f : field) (p : Z) : outcome getter_value :=
+  getter_of_method (conv_choice enums f) emitted f p.
+
 Definition getter (d : device) (f : field) (p : Z) : outcome getter_value :=
   getter_with (collect_enums d) (emitted_enums d) f p.
 
@@ -368,6 +442,10 @@ Definition emitted_enums_env (env : cfg_env) (d : device) : list eenum :=
 
 Definition getter_env (env : cfg_env) (d : device) (f : field) (p : Z) : outcome getter_value :=
   getter_with (collect_enums d) (emitted_enums_env env d) f p.
+
+(* HISTORICAL (before 6916a8d): the getter of a build under the first-hit rule *)
+Definition getter_env_first_hit (env : cfg_env) (d : device) (f : field) (p : Z) : outcome getter_value :=
+  getter_of_method (conv_choice_first_hit (collect_enums d) f) (emitted_enums_env env d) f p.
 
 Definition cfg_free (d : device) : Prop :=
   forall s, In s (enum_sites d) -> forall c, In c (s_cfgs s) -> c = None.
@@ -407,6 +485,22 @@ Definition spec_reject (w : Z) (vs : list variant) (use_try : bool) : Prop :=
   (count is_default vs >= 2)%nat \/ (count is_catch_all vs >= 2)%nat \/
   (use_try = false /\ ~ spec_total w vs).
 
+(* "a variant's number does not fit the field's width", the part below / signed part (D16, D17): an enum on a
+   field that is not `int` is emitted with an unsigned repr, so a number below 0 does not fit; an enum on an
+   `int` field of w bits is emitted with the signed repr i{c}, c = carrier_bits w = the least power of two that
+   is >= max(8, w), so a number outside -2^(c-1) .. 2^(c-1)-1 does not fit. *)
+Definition unrepresentable (base : base_type) (w n : Z) : Prop :=
+  match base with
+  | BInt => n < - 2 ^ (carrier_bits w - 1) \/ n > 2 ^ (carrier_bits w - 1) - 1
+  | _ => n < 0
+  end.
+Definition spec_unrepresentable (base : base_type) (w : Z) (vs : list variant) : Prop :=
+  exists n, In n (numbers vs) /\ unrepresentable base w n.
+
+(* the property's rule as DESIGN.md section 9.2 fixes it after the repairs *)
+Definition spec_reject_repaired (base : base_type) (w : Z) (vs : list variant) (use_try : bool) : Prop :=
+  spec_reject w vs use_try \/ spec_unrepresentable base w vs.
+
 (* the class of defect D12: same number, same cfg, DIFFERENT names *)
 Definition d12_class (vs : list variant) : Prop :=
   exists i j a b n, (i < j)%nat /\ nth_error vs i = Some a /\ nth_error vs j = Some b /\
@@ -423,6 +517,16 @@ Definition spec_reject_b (w : Z) (vs : list variant) (use_try : bool) : bool :=
   spec_duplicate_b vs || existsb (fun n => highest w <? n) (numbers vs) ||
   negb (count is_default vs <? 2)%nat || negb (count is_catch_all vs <? 2)%nat ||
   (negb use_try && negb (has_fallback vs || bits_covered w vs)).
+
+Definition unrepresentable_b (base : base_type) (w n : Z) : bool :=
+  match base with
+  | BInt => (n <? - 2 ^ (carrier_bits w - 1)) || (2 ^ (carrier_bits w - 1) - 1 <? n)
+  | _ => n <? 0
+  end.
+Definition spec_unrepresentable_b (base : base_type) (w : Z) (vs : list variant) : bool :=
+  existsb (unrepresentable_b base w) (numbers vs).
+Definition spec_reject_repaired_b (base : base_type) (w : Z) (vs : list variant) (use_try : bool) : bool :=
+  spec_reject_b w vs use_try || spec_unrepresentable_b base w vs.
 
 (* ------------------------------------------------------------------ *)
 (* canonical result strings for the correspondence checks               *)
@@ -452,6 +556,37 @@ Definition c15_result_fixed := c15_result_with seen_eqb_fixed.
 Definition c15_spec (d : device) : string :=
   (if existsb (fun s => spec_reject_b (s_width s) (s_variants s) (s_try s)) (enum_sites d) then "reject" else "accept")
   ++ (if existsb (fun s => d12_class_b (s_variants s)) (enum_sites d) then ":d12" else "").
+
+(* the same for the pass as it is now (D12, D16, D17 repaired).  The spec string also names the defect classes
+   the definition falls into (":d12" as above; ":d16" = a negative number on a field that is not int; ":d17" = a
+   number outside the signed repr of an int field), so that the check can say WHICH defect came back. *)
+Definition c15_result_repaired (d : device) : string :=
+  match enum_values_check_repaired d with
+  | VOk => "ok#" ++ String.concat ";" (map show_eenum (emitted_enums d))
+  | v => show_verdict v
+  end.
+
+(* the present pass with the name-sensitive duplicate test of before 3c1cc51: only used by the check when a D12
+   entry of KNOWN_FINDINGS.jsonl is `open` again (no theorem speaks about it) *)
+Definition c15_result_repaired_d12_open (d : device) : string :=
+  match first_verdict (map (fun s => enum_check_gen seen_eqb
+                                       (repr_mid (f_base (s_field s)) (s_obj s) (f_name (s_field s)) (s_width s) (s_enum s))
+                                       (s_obj s) (f_name (s_field s)) (s_width s) (s_enum s) (s_try s)) (enum_sites d)) with
+  | VOk => "ok#" ++ String.concat ";" (map show_eenum (emitted_enums d))
+  | v => show_verdict v
+  end.
+
+Definition s_base (s : site) : base_type := f_base (s_field s).
+Definition is_int (b : base_type) : bool := match b with BInt => true | _ => false end.
+
+Definition c15_spec_repaired (d : device) : string :=
+  (if existsb (fun s => spec_reject_repaired_b (s_base s) (s_width s) (s_variants s) (s_try s)) (enum_sites d)
+   then "reject" else "accept")
+  ++ (if existsb (fun s => d12_class_b (s_variants s)) (enum_sites d) then ":d12" else "")
+  ++ (if existsb (fun s => negb (is_int (s_base s)) && spec_unrepresentable_b (s_base s) (s_width s) (s_variants s))
+                 (enum_sites d) then ":d16" else "")
+  ++ (if existsb (fun s => is_int (s_base s) && spec_unrepresentable_b (s_base s) (s_width s) (s_variants s))
+                 (enum_sites d) then ":d17" else "").
 
 (* ---- C07: run-length encoded tables over all raw values ---- *)
 
@@ -576,7 +711,7 @@ Definition c07_enum_line (t : enum_def * base_type * Z) : string :=
 (* the getter tables in the build where exactly the cfg predicates in [on] hold *)
 Definition c07_env_result (on : list string) (d : device) : string :=
   let env := fun c => existsb (String.eqb c) on in
-  match enum_values_check d with
+  match enum_values_check_repaired d with
   | VOk =>
     let enums := collect_enums d in
     let emitted := emitted_enums_env env d in
@@ -590,7 +725,7 @@ Definition c07_env_result (on : list string) (d : device) : string :=
   end.
 
 Definition c07_result (d : device) : string :=
-  match enum_values_check d with
+  match enum_values_check_repaired d with
   | VOk =>
     let enums := collect_enums d in
     let emitted := emitted_enums d in
